@@ -44,6 +44,11 @@ CHECKS = {
          "Every generated kernel is interpreted instruction by instruction over its full iteration box with validity masks (accesses under conditionals are only required to be in bounds where evaluated); any non-data-dependent subscript outside [0, extent) on any axis, any read of an unwritten element, any sanitizer report and any canary corruption is a violation. One compiled kernel per symbolic program is run at all 7^d size valuations (d<=2 complete, d=3 sampled incl. all corners).",
          "Decides the property for all loop indices at each EXECUTED size only (0..6): the statement's 'all sizes, symbolically' is out of reach of runtime monitoring (DESIGN.md §3 C11 / §8). loopy's lowering of subscripts to flat offsets is covered by ASan/canaries, not by the interpreter.",
          "DESIGN.md §3 C11"),
+ "C16": ("exploration",
+         "runtime decision oracle by execution: are_shape_components_equal and the derived acceptance decisions compared with evaluation of both affine expressions on the spanning grid {0,1,2}^d; inferred shapes and outputs of ONE compiled kernel compared with the NumPy shadow at every size valuation",
+         "(a) every coefficient tuple in [-3,3] for one parameter and sampled/complete tuples for 2-3 parameters, each written in random syntactic forms (operand order, grouping, n+n+n, redundant terms), decided by the real function in both argument orders and through broadcasting, stack, einsum and call-argument checking; agreement on {0,1,2}^d decides equality of affine functions completely. (b) .shape of every node of symbolic programs evaluated at valuations equals NumPy's. (c) one compilation per program, executed at all valuations 0..6 (d<=2) or 60 sampled (d=3), values vs NumPy.",
+         "Operations restricted to those the quantifier lists. Sizes > 6 and coefficients outside [-3,3] are not observed. Execution as C01.",
+         "DESIGN.md §3 C16"),
 }
 
 NOT_YET = {
